@@ -16,7 +16,7 @@ PROFILE = {
 
 
 def build_cases(tier, seed):
-    n = 96 if tier == "quick" else 900
+    n = 96 if tier == "quick" else 3000
     cases = []
     for i in range(n):
         s = seed * 100000 + 12000 + i
